@@ -109,6 +109,11 @@ type Exec struct {
 	Missing func(obj Obj, key string) bool
 	// MissingHits counts how often Missing fired.
 	MissingHits int
+	// Denied, when set, marks field coordinates (runtime type name, field name) whose value
+	// must not reach the client (C14): the field completes as null and propagates.
+	Denied func(typeName, fieldName string) bool
+	// DeniedPaths lists the response paths at which Denied fired.
+	DeniedPaths [][]any
 }
 
 // Run executes the named (or only) operation and returns data (nil when null propagated to
@@ -254,6 +259,14 @@ func (e *Exec) selectionSet(obj Obj, def *ast.Definition, sets []ast.SelectionSe
 		fpath := appendPath(path, g.key)
 		if f.Name == "__typename" {
 			out.Set(g.key, def.Name)
+			continue
+		}
+		if e.Denied != nil && e.Denied(def.Name, f.Name) {
+			e.DeniedPaths = append(e.DeniedPaths, fpath)
+			if fdm := def.Fields.ForName(f.Name); fdm != nil && fdm.Type.NonNull {
+				return nil, false
+			}
+			out.Set(g.key, nil)
 			continue
 		}
 		if e.Missing != nil && e.Missing(obj, g.key) {
